@@ -10,6 +10,18 @@ package main
 // module holds).  Around every event: supply, community pool, balances of all
 // module accounts and users.  Only the keepers of the application are driven;
 // which bank keeper staking and gov hold is exactly what is observed.
+//
+// A case is a SEQUENCE of events over explicit block heights: an op with
+// "hold":true is followed by the next op at the SAME height (BeginBlock slash,
+// transactions, gov EndBlocker of one block), otherwise the height advances.
+// Redirected burns are interleaved with the distribution module's own writers
+// of the community pool (MsgFundCommunityPool, community-pool spend with the gov
+// authority, reward / commission withdrawals, delegation changes whose hooks
+// book truncation remainders, AllocateTokens of a BeginBlock; the hooks that
+// fire INSIDE a slash of redelegated stake) and with ordinary burns.  After
+// every event: supply, community pool, distribution module account and the sum
+// of the outstanding rewards are compared with an exact expectation, and the
+// distribution module-account invariant is evaluated.
 
 import (
 	"encoding/json"
@@ -27,6 +39,7 @@ import (
 	sdk "github.com/cosmos/cosmos-sdk/types"
 	sdkerrors "github.com/cosmos/cosmos-sdk/types/errors"
 	authtypes "github.com/cosmos/cosmos-sdk/x/auth/types"
+	"github.com/cosmos/cosmos-sdk/x/distribution"
 	distrtypes "github.com/cosmos/cosmos-sdk/x/distribution/types"
 	"github.com/cosmos/cosmos-sdk/x/evidence"
 	"github.com/cosmos/cosmos-sdk/x/gov"
@@ -71,6 +84,7 @@ const (
 	slNotBonded
 	slDistr
 	slEvm
+	slFeeCollector = 9
 )
 
 func bnSlotAddr(i int) sdk.AccAddress {
@@ -95,8 +109,9 @@ type burnOp struct {
 	Pow   string    `json:"pow,omitempty"` // reported power ("" = the validator's current consensus power)
 	DT    int       `json:"dt,omitempty"`  // seconds
 	Opt   int       `json:"opt,omitempty"`
-	Flags int       `json:"flags,omitempty"` // gov: bit0 BurnVoteVeto, bit1 BurnVoteQuorum, bit2 BurnProposalDepositPrevote
+	Flags int       `json:"flags,omitempty"` // gov: bit0 BurnVoteVeto, bit1 BurnVoteQuorum, bit2 BurnProposalDepositPrevote; allocate: bit v = validator v voted
 	Coins []daoCoin `json:"coins,omitempty"`
+	Hold  bool      `json:"hold,omitempty"` // the next op happens at the same block height
 }
 
 type burnInput struct {
@@ -107,6 +122,8 @@ type bnSnap struct {
 	Bal    [bnSlots][bnDen]*big.Int
 	Supply [bnDen]*big.Int
 	Pool   [bnDen]*big.Int // 1e-18 units
+	Out    [bnDen]*big.Int // sum of the validators' outstanding rewards, 1e-18 units
+	All    [bnDen]*big.Int // sum of all bank balances
 	// staking bookkeeping (tags only)
 	ValTokens [bnVals]*big.Int
 	UBD       *big.Int
@@ -150,7 +167,24 @@ func (e *bnEnv) snapshot() bnSnap {
 	for d := 0; d < bnDen; d++ {
 		s.Supply[d] = bk.GetSupply(e.Ctx, bnDenoms[d]).Amount.BigInt()
 		s.Pool[d] = fp.CommunityPool.AmountOf(bnDenoms[d]).BigInt()
+		s.All[d] = big.NewInt(0)
 	}
+	var out sdk.DecCoins
+	e.App.DistrKeeper.IterateValidatorOutstandingRewards(e.Ctx, func(_ sdk.ValAddress, r distrtypes.ValidatorOutstandingRewards) bool {
+		out = out.Add(r.Rewards...)
+		return false
+	})
+	for d := 0; d < bnDen; d++ {
+		s.Out[d] = out.AmountOf(bnDenoms[d]).BigInt()
+	}
+	bk.IterateAllBalances(e.Ctx, func(_ sdk.AccAddress, c sdk.Coin) bool {
+		for d := 0; d < bnDen; d++ {
+			if c.Denom == bnDenoms[d] {
+				s.All[d].Add(s.All[d], c.Amount.BigInt())
+			}
+		}
+		return false
+	})
 	s.UBD = big.NewInt(0)
 	for v := 0; v < bnVals; v++ {
 		s.ValTokens[v] = big.NewInt(0)
@@ -189,13 +223,28 @@ func (s *bnSnap) coq() string {
 	return fmt.Sprintf("(mksnap %s %s %s)", coqList(bal), coqList(sup), coqList(pool))
 }
 
+// src: the three module accounts whose burns are redirected, together
+func (s *bnSnap) src(d int) *big.Int {
+	x := new(big.Int).Add(s.Bal[slGov][d], s.Bal[slBonded][d])
+	return x.Add(x, s.Bal[slNotBonded][d])
+}
+
+// cst prints the one-denomination state of the sequence model (Coq: mkcst)
+func (s *bnSnap) cst(d int) string {
+	other := new(big.Int).Sub(s.All[d], s.src(d))
+	other.Sub(other, s.Bal[slDistr][d])
+	return fmt.Sprintf("(mkcst %s %s %s %s %s %s)", coqZ(s.Supply[d]), coqZ(s.Pool[d]), coqZ(s.Bal[slDistr][d]), coqZ(s.Out[d]), coqZ(s.src(d)), coqZ(other))
+}
+
 type bnStepObs struct {
 	Op     string     `json:"op"`
+	H      int64      `json:"h"` // block height relative to the start of the case
 	Err    string     `json:"err,omitempty"`
 	Burned [][]string `json:"redirected,omitempty"` // [module, denom, amount] that left gov / the pools without a recipient
 	DSup   [][]string `json:"d_supply,omitempty"`
 	DPool  [][]string `json:"d_pool,omitempty"`
 	DDistr [][]string `json:"d_distr,omitempty"`
+	DOut   [][]string `json:"d_outstanding,omitempty"`
 }
 
 // ---------------------------------------------------------------- running one op
@@ -317,6 +366,8 @@ func (e *bnEnv) apply(op burnOp) error {
 			return fmt.Errorf("no validator")
 		}
 		pw := e.power(op.V, op.Pow)
+		// the missed blocks are consecutive heights; the block whose BeginBlocker slashes and
+		// jails is the last one, and the height stays there (later ops with "hold" share it)
 		n := int(e.App.SlashingKeeper.SignedBlocksWindow(e.Ctx)) + 3
 		for i := 0; i < n; i++ {
 			if sk.IsValidatorJailed(e.Ctx, v.cons) {
@@ -325,12 +376,14 @@ func (e *bnEnv) apply(op burnOp) error {
 			if _, ok := e.App.SlashingKeeper.GetValidatorSigningInfo(e.Ctx, v.cons); !ok {
 				return fmt.Errorf("no signing info (validator never bonded)")
 			}
+			if i > 0 {
+				e.tick(5)
+			}
 			req := abci.RequestBeginBlock{LastCommitInfo: abci.CommitInfo{Votes: []abci.VoteInfo{{
 				Validator: abci.Validator{Address: v.cons, Power: pw}, SignedLastBlock: false}}}}
 			if err := e.atomic(func(ctx sdk.Context) error { slashing.BeginBlocker(ctx, req, e.App.SlashingKeeper); return nil }); err != nil {
 				return err
 			}
-			e.tick(5)
 		}
 		return nil
 	case "submit":
@@ -378,6 +431,41 @@ func (e *bnEnv) apply(op burnOp) error {
 		return e.atomic(func(ctx sdk.Context) error {
 			return e.App.BankKeeper.BurnCoins(ctx, bnModules[op.W], bnCoins(op.Coins))
 		})
+	case "fundpool": // MsgFundCommunityPool of a user
+		_, err := e.runMsg(distrtypes.NewMsgFundCommunityPool(bnCoins(op.Coins), addrN(op.A)))
+		return err
+	case "spend": // community-pool spend: the message only the gov authority may send
+		_, err := e.runMsg(&distrtypes.MsgCommunityPoolSpend{Authority: authtypes.NewModuleAddress(govtypes.ModuleName).String(),
+			Recipient: addrN(op.A).String(), Amount: bnCoins(op.Coins)})
+		return err
+	case "withdraw":
+		_, err := e.runMsg(distrtypes.NewMsgWithdrawDelegatorReward(addrN(op.A), sdk.ValAddress(addrN(op.V))))
+		return err
+	case "commission":
+		_, err := e.runMsg(distrtypes.NewMsgWithdrawValidatorCommission(sdk.ValAddress(addrN(op.V))))
+		return err
+	case "allocate":
+		// fees of the previous block sit in the fee collector; the distribution BeginBlocker
+		// allocates them to the validators that voted (bit v of flags) and to the community pool
+		if len(op.Coins) > 0 {
+			if err := testutil.FundModuleAccount(e.Ctx, e.App.BankKeeper, authtypes.FeeCollectorName, bnCoins(op.Coins)); err != nil {
+				return err
+			}
+		}
+		votes := []abci.VoteInfo{}
+		for v := 0; v < bnVals; v++ {
+			if op.Flags&(1<<v) == 0 || !e.vals[v].created {
+				continue
+			}
+			val, ok := sk.GetValidator(e.Ctx, e.vals[v].oper)
+			if !ok {
+				continue
+			}
+			votes = append(votes, abci.VoteInfo{Validator: abci.Validator{Address: e.vals[v].cons,
+				Power: val.ConsensusPower(sdk.DefaultPowerReduction)}, SignedLastBlock: true})
+		}
+		req := abci.RequestBeginBlock{LastCommitInfo: abci.CommitInfo{Votes: votes}}
+		return e.atomic(func(ctx sdk.Context) error { distribution.BeginBlocker(ctx, req, e.App.DistrKeeper); return nil })
 	}
 	return fmt.Errorf("bad op %q", op.Op)
 }
@@ -427,52 +515,137 @@ func sub(a, b *big.Int) *big.Int { return new(big.Int).Sub(a, b) }
 
 type bnEvent struct {
 	coqOps  []string
+	seq     [bnDen][]string // events of the one-denomination sequence model (Coq: cev)
 	res     int
 	oracle  string // "" = property holds on this event
 	redirX  *big.Int
 	ordX    *big.Int
 	hasProp bool // the property says something about this event
+	writer  bool // the distribution keeper itself wrote the community pool during the event
 	tags    []string
 }
 
+func bnMulE18(x *big.Int) *big.Int { return new(big.Int).Mul(x, e18) }
+
 // bnJudge evaluates property C14 on one event of the implementation (pre ->
-// post) and derives the bank calls the event consists of (for the model).
+// post) and derives the bank calls the event consists of (for the models).
+//
+// The expectation is exact and computed from the input and from balances the
+// event cannot fake: X = what left gov / the staking pools and reached no user
+// (the redirected amount), Y / Z = the donation / spend of the message, P = what
+// users were paid out of the distribution account.  What the distribution
+// keeper itself books into the pool during the event is, by the SDK's own
+// bookkeeping (withdrawDelegationRewards, AfterValidatorRemoved,
+// IncrementValidatorPeriod, AllocateTokens), exactly: coins that entered the
+// distribution account for it, minus payouts, minus the growth of the
+// outstanding rewards.
 func bnJudge(op burnOp, err error, pre, post *bnSnap) bnEvent {
 	ev := bnEvent{res: 0, redirX: big.NewInt(0), ordX: big.NewInt(0)}
-	dSup, dPool, dDistr := zeroVec(), zeroVec(), zeroVec()
+	dSup, dPool, dDistr, dOut, dSrc, dUsers := zeroVec(), zeroVec(), zeroVec(), zeroVec(), zeroVec(), zeroVec()
+	var gain [bnUsers][bnDen]*big.Int
 	for d := 0; d < bnDen; d++ {
 		dSup[d] = sub(post.Supply[d], pre.Supply[d])
 		dPool[d] = sub(post.Pool[d], pre.Pool[d])
 		dDistr[d] = sub(post.Bal[slDistr][d], pre.Bal[slDistr][d])
+		dOut[d] = sub(post.Out[d], pre.Out[d])
+		dSrc[d] = sub(post.src(d), pre.src(d))
+		for u := 0; u < bnUsers; u++ {
+			gain[u][d] = sub(post.Bal[16+u][d], pre.Bal[16+u][d])
+			dUsers[d].Add(dUsers[d], gain[u][d])
+		}
 	}
-	// expected deltas per the property, given x (redirected) and y (ordinary burn, negative for mint)
+	// exact expectation for the three observed quantities
+	expect := func(wantSup, wantPool, wantDistr [bnDen]*big.Int, what, why string) {
+		if ev.oracle != "" {
+			return
+		}
+		for d := 0; d < bnDen; d++ {
+			if dSup[d].Cmp(wantSup[d]) != 0 {
+				ev.oracle = fmt.Sprintf("%s: total supply of %s changed by %s, the property demands %s (%s)", what, bnDenoms[d], dSup[d], wantSup[d], why)
+				return
+			}
+			if dPool[d].Cmp(wantPool[d]) != 0 {
+				ev.oracle = fmt.Sprintf("%s: community pool of %s changed by %s (1e-18 units), the property demands %s (%s)", what, bnDenoms[d], dPool[d], wantPool[d], why)
+				return
+			}
+			if dDistr[d].Cmp(wantDistr[d]) != 0 {
+				ev.oracle = fmt.Sprintf("%s: distribution module account balance of %s changed by %s, the property demands %s (%s)", what, bnDenoms[d], dDistr[d], wantDistr[d], why)
+				return
+			}
+		}
+	}
+	// x redirected, y burned for real (negative: minted)
 	demand := func(x, y [bnDen]*big.Int, what string) {
+		wantSup, wantPool := zeroVec(), zeroVec()
 		for d := 0; d < bnDen; d++ {
 			if x[d].Sign() < 0 {
 				ev.oracle = fmt.Sprintf("%s: %s %s appeared in a module that only burns", what, new(big.Int).Neg(x[d]), bnDenoms[d])
 				return
 			}
-			wantSup := new(big.Int).Neg(y[d])
-			if dSup[d].Cmp(wantSup) != 0 {
-				ev.oracle = fmt.Sprintf("%s: total supply of %s changed by %s, the property demands %s (redirected amount %s)", what, bnDenoms[d], dSup[d], wantSup, x[d])
-				return
-			}
-			wantPool := new(big.Int).Mul(x[d], e18)
-			if dPool[d].Cmp(wantPool) != 0 {
-				ev.oracle = fmt.Sprintf("%s: community pool of %s changed by %s (1e-18 units), the property demands %s", what, bnDenoms[d], dPool[d], wantPool)
-				return
-			}
-			if dDistr[d].Cmp(x[d]) != 0 {
-				ev.oracle = fmt.Sprintf("%s: distribution module account balance of %s changed by %s, the property demands %s", what, bnDenoms[d], dDistr[d], x[d])
-				return
+			wantSup[d] = new(big.Int).Neg(y[d])
+			wantPool[d] = bnMulE18(x[d])
+		}
+		expect(wantSup, wantPool, x, what, fmt.Sprintf("redirected amount %s", vecStrings(x)))
+	}
+	addSeq := func(d int, s string) { ev.seq[d] = append(ev.seq[d], s) }
+	seqVec := func(format string, v [bnDen]*big.Int) {
+		for d := 0; d < bnDen; d++ {
+			if v[d].Sign() != 0 {
+				addSeq(d, fmt.Sprintf(format, coqZ(v[d])))
 			}
 		}
 	}
+	seqMoveSrc := func(v [bnDen]*big.Int) { // net flow into gov + the staking pools from users
+		for d := 0; d < bnDen; d++ {
+			if v[d].Sign() > 0 {
+				addSeq(d, fmt.Sprintf("EvMove AOther ASrc %s", coqZ(v[d])))
+			} else if v[d].Sign() < 0 {
+				addSeq(d, fmt.Sprintf("EvMove ASrc AOther %s", coqZ(new(big.Int).Neg(v[d]))))
+			}
+		}
+	}
+	seqRemainder := func(p, r [bnDen]*big.Int) {
+		for d := 0; d < bnDen; d++ {
+			if p[d].Sign() != 0 || r[d].Sign() != 0 {
+				addSeq(d, fmt.Sprintf("EvRemainder %s %s", coqZ(p[d]), coqZ(r[d])))
+			}
+		}
+	}
+	// payouts of the distribution account to users, as bank sends; remainder booked into the pool
+	payoutOps := func() {
+		for u := 0; u < bnUsers; u++ {
+			if c, ok := bnCoqCoins(gain[u]); ok {
+				ev.coqOps = append(ev.coqOps, fmt.Sprintf("Send 3%%N %d%%N %s", 16+u, c))
+			}
+		}
+	}
+	bookOp := func(r [bnDen]*big.Int) {
+		if c, ok := bnCoqCoins(r); ok {
+			ev.coqOps = append(ev.coqOps, fmt.Sprintf("DistrBook %s", c))
+			ev.writer = true
+		}
+	}
+	// what the distribution keeper booked: - (growth of outstanding rewards) - payouts + coins in
+	booked := func(in, paid [bnDen]*big.Int, what string) [bnDen]*big.Int {
+		r := zeroVec()
+		for d := 0; d < bnDen; d++ {
+			r[d] = sub(bnMulE18(sub(in[d], paid[d])), dOut[d])
+			if paid[d].Sign() < 0 && ev.oracle == "" {
+				ev.oracle = fmt.Sprintf("%s: users lost %s %s", what, new(big.Int).Neg(paid[d]), bnDenoms[d])
+			}
+			if r[d].Sign() < 0 && ev.oracle == "" {
+				ev.oracle = fmt.Sprintf("%s: outstanding rewards of %s changed by %s (1e-18 units) while %s entered the distribution account and %s was paid out: more than that cannot be accounted for",
+					what, bnDenoms[d], dOut[d], in[d], paid[d])
+			}
+		}
+		return r
+	}
 	switch op.Op {
 	case "slash", "doublesign", "downtime":
-		// nothing but burns moves coins out of the two pools during these events
+		// nothing but burns moves coins out of the two pools during these events; users are only
+		// paid by the distribution hooks that fire when redelegated shares are unbonded
 		ev.hasProp = true
-		xb, xn, x, y := zeroVec(), zeroVec(), zeroVec(), zeroVec()
+		xb, xn, x := zeroVec(), zeroVec(), zeroVec()
 		for d := 0; d < bnDen; d++ {
 			xb[d] = sub(pre.Bal[slBonded][d], post.Bal[slBonded][d])
 			xn[d] = sub(pre.Bal[slNotBonded][d], post.Bal[slNotBonded][d])
@@ -481,7 +654,17 @@ func bnJudge(op burnOp, err error, pre, post *bnSnap) bnEvent {
 				x[d] = big.NewInt(-1)
 			}
 		}
-		demand(x, y, op.Op)
+		r := booked(zeroVec(), dUsers, op.Op)
+		wantPool, wantDistr := zeroVec(), zeroVec()
+		for d := 0; d < bnDen; d++ {
+			if x[d].Sign() < 0 && ev.oracle == "" {
+				ev.oracle = fmt.Sprintf("%s: %s appeared in a staking pool", op.Op, bnDenoms[d])
+			}
+			wantPool[d] = new(big.Int).Add(bnMulE18(x[d]), r[d])
+			wantDistr[d] = sub(x[d], dUsers[d])
+		}
+		expect(zeroVec(), wantPool, wantDistr, op.Op, fmt.Sprintf("redirected amount %s, rewards paid out by the staking hooks of this event %s, remainders they booked into the pool %s",
+			vecStrings(x), vecStrings(dUsers), vecStrings(r)))
 		if c, ok := bnCoqCoins(xb); ok {
 			ev.coqOps = append(ev.coqOps, fmt.Sprintf("Burn 1%%N %s", c))
 			ev.tags = append(ev.tags, op.Op+":bonded-pool")
@@ -490,6 +673,11 @@ func bnJudge(op burnOp, err error, pre, post *bnSnap) bnEvent {
 			ev.coqOps = append(ev.coqOps, fmt.Sprintf("Burn 2%%N %s", c))
 			ev.tags = append(ev.tags, op.Op+":not-bonded-pool")
 		}
+		payoutOps()
+		bookOp(r)
+		seqVec("EvBurn 1%%N %s", xb)
+		seqVec("EvBurn 2%%N %s", xn)
+		seqRemainder(dUsers, r)
 		ev.redirX.Set(x[0])
 		if post.UBD.Cmp(pre.UBD) < 0 {
 			ev.tags = append(ev.tags, op.Op+":unbonding-entries-slashed")
@@ -503,9 +691,23 @@ func bnJudge(op burnOp, err error, pre, post *bnSnap) bnEvent {
 				}
 			}
 		}
+		if x[0].Sign() > 0 {
+			for d := 0; d < bnDen; d++ {
+				if dUsers[d].Sign() > 0 {
+					ev.tags = append(ev.tags, op.Op+":hook-paid-rewards-inside-slash")
+					break
+				}
+			}
+			for d := 0; d < bnDen; d++ {
+				if r[d].Sign() > 0 {
+					ev.tags = append(ev.tags, op.Op+":hook-booked-remainder-inside-slash")
+					break
+				}
+			}
+		}
 	case "govend":
 		ev.hasProp = true
-		x, y := zeroVec(), zeroVec()
+		x, y, refunds := zeroVec(), zeroVec(), zeroVec()
 		for d := 0; d < bnDen; d++ {
 			x[d] = sub(pre.Bal[slGov][d], post.Bal[slGov][d])
 		}
@@ -514,6 +716,7 @@ func bnJudge(op burnOp, err error, pre, post *bnSnap) bnEvent {
 			for d := 0; d < bnDen; d++ {
 				r[d] = sub(post.Bal[u][d], pre.Bal[u][d]) // refund
 				x[d].Sub(x[d], r[d])
+				refunds[d].Add(refunds[d], r[d])
 			}
 			if c, ok := bnCoqCoins(r); ok {
 				ev.coqOps = append(ev.coqOps, fmt.Sprintf("Send 0%%N %d%%N %s", u, c))
@@ -521,6 +724,8 @@ func bnJudge(op burnOp, err error, pre, post *bnSnap) bnEvent {
 			}
 		}
 		demand(x, y, "gov EndBlocker")
+		seqVec("EvMove ASrc AOther %s", refunds)
+		seqVec("EvBurn 0%%N %s", x)
 		if c, ok := bnCoqCoins(x); ok {
 			ev.coqOps = append(ev.coqOps, fmt.Sprintf("Burn 0%%N %s", c))
 			nd := 0
@@ -531,6 +736,84 @@ func bnJudge(op burnOp, err error, pre, post *bnSnap) bnEvent {
 				}
 			}
 			ev.tags = append(ev.tags, fmt.Sprintf("gov:deposit-burn denoms=%d", nd))
+		}
+	case "fundpool", "spend":
+		// MsgFundCommunityPool of Y: pool + Y, distribution account + Y; a spend of Z the reverse
+		ev.hasProp = true
+		amt, wantPool, wantDistr := zeroVec(), zeroVec(), zeroVec()
+		if err == nil {
+			for _, c := range op.Coins {
+				amt[c.D].Add(amt[c.D], c.V)
+			}
+		}
+		sign := int64(1)
+		if op.Op == "spend" {
+			sign = -1
+		}
+		for d := 0; d < bnDen; d++ {
+			wantDistr[d] = new(big.Int).Mul(amt[d], big.NewInt(sign))
+			wantPool[d] = bnMulE18(wantDistr[d])
+			if g := new(big.Int).Neg(wantDistr[d]); dUsers[d].Cmp(g) != 0 && ev.oracle == "" {
+				ev.oracle = fmt.Sprintf("%s: the users' balances of %s changed by %s, expected %s", op.Op, bnDenoms[d], dUsers[d], g)
+			}
+		}
+		expect(zeroVec(), wantPool, wantDistr, op.Op, fmt.Sprintf("amount of the message %s, result %d", vecStrings(amt), bnErrCode(err)))
+		if c, ok := bnCoqCoins(amt); ok {
+			if op.Op == "fundpool" {
+				ev.coqOps = append(ev.coqOps, fmt.Sprintf("Send %d%%N 3%%N %s", 16+op.A, c))
+				seqVec("EvFund %s", amt)
+			} else {
+				ev.coqOps = append(ev.coqOps, fmt.Sprintf("Send 3%%N %d%%N %s", 16+op.A, c))
+				seqVec("EvSpend %s", amt)
+			}
+			bookOp(wantPool)
+		}
+	case "withdraw", "commission":
+		// rewards leave the outstanding rewards: the integer part is paid out, the remainder of a
+		// delegator's rewards goes to the community pool
+		ev.hasProp = true
+		r := booked(zeroVec(), dUsers, op.Op)
+		wantDistr := zeroVec()
+		for d := 0; d < bnDen; d++ {
+			wantDistr[d] = new(big.Int).Neg(dUsers[d])
+		}
+		expect(zeroVec(), r, wantDistr, op.Op, fmt.Sprintf("paid out %s, outstanding rewards changed by %s", vecStrings(dUsers), vecStrings(dOut)))
+		payoutOps()
+		bookOp(r)
+		seqRemainder(dUsers, r)
+	case "allocate":
+		// AllocateTokens: the fee collector's coins enter the distribution account; what does not
+		// become outstanding rewards of the validators is the community pool's
+		ev.hasProp = true
+		minted, f := zeroVec(), zeroVec()
+		for _, c := range op.Coins {
+			minted[c.D].Add(minted[c.D], c.V)
+		}
+		for d := 0; d < bnDen; d++ {
+			if dSup[d].Sign() == 0 {
+				minted[d] = big.NewInt(0) // funding failed
+			}
+			f[d] = sub(new(big.Int).Add(pre.Bal[slFeeCollector][d], minted[d]), post.Bal[slFeeCollector][d])
+		}
+		c := booked(f, zeroVec(), op.Op)
+		for d := 0; d < bnDen; d++ {
+			if c[d].Cmp(bnMulE18(f[d])) > 0 && ev.oracle == "" {
+				ev.oracle = fmt.Sprintf("allocate: outstanding rewards of %s shrank by %s", bnDenoms[d], new(big.Int).Neg(dOut[d]))
+			}
+		}
+		expect(minted, c, f, op.Op, fmt.Sprintf("fees %s, outstanding rewards changed by %s", vecStrings(f), vecStrings(dOut)))
+		if m, ok := bnCoqCoins(minted); ok {
+			ev.coqOps = append(ev.coqOps, fmt.Sprintf("Mint 8%%N %s", m), fmt.Sprintf("Send 8%%N 9%%N %s", m))
+		}
+		if m, ok := bnCoqCoins(f); ok {
+			ev.coqOps = append(ev.coqOps, fmt.Sprintf("Send 9%%N 3%%N %s", m))
+		}
+		bookOp(c)
+		seqVec("EvMint %s", minted)
+		for d := 0; d < bnDen; d++ {
+			if f[d].Sign() != 0 || c[d].Sign() != 0 {
+				addSeq(d, fmt.Sprintf("EvAllocate %s %s", coqZ(f[d]), coqZ(c[d])))
+			}
 		}
 	case "evmburn", "evmmint":
 		ev.hasProp = true
@@ -544,6 +827,7 @@ func bnJudge(op burnOp, err error, pre, post *bnSnap) bnEvent {
 			if err == nil && amt.Sign() > 0 {
 				y[0] = amt
 				ev.ordX.Set(amt)
+				addSeq(0, fmt.Sprintf("EvBurn 4%%N %s", coqZ(amt)))
 				if moved.Cmp(amt) != 0 {
 					ev.oracle = fmt.Sprintf("evm burn of %s took %s from the account", amt, moved)
 				}
@@ -557,6 +841,7 @@ func bnJudge(op burnOp, err error, pre, post *bnSnap) bnEvent {
 			ev.coqOps = []string{fmt.Sprintf("Mint 4%%N %s", c), fmt.Sprintf("Send 4%%N %d%%N %s", u, c)}
 			if err == nil && amt.Sign() > 0 {
 				y[0] = new(big.Int).Neg(amt)
+				addSeq(0, fmt.Sprintf("EvMint %s", coqZ(amt)))
 			} else {
 				ev.coqOps = nil
 			}
@@ -583,6 +868,7 @@ func bnJudge(op burnOp, err error, pre, post *bnSnap) bnEvent {
 					ev.oracle = fmt.Sprintf("burn by %s: module balance of %s dropped by %s, burned %s", bnModules[op.W], bnDenoms[d], m, y[d])
 				}
 			}
+			seqVec(fmt.Sprintf("EvBurn %d%%%%N %%s", op.W), y)
 		}
 		if ev.oracle == "" {
 			demand(x, y, "burn by "+bnModules[op.W])
@@ -591,10 +877,38 @@ func bnJudge(op burnOp, err error, pre, post *bnSnap) bnEvent {
 	case "fund":
 		if err == nil {
 			ev.coqOps = []string{fmt.Sprintf("Mint 8%%N %s", bnCoqCoinList(op.Coins)), fmt.Sprintf("Send 8%%N %d%%N %s", 16+op.A, bnCoqCoinList(op.Coins))}
+			seqVec("EvMint %s", dSup)
 		}
 	case "fundmod":
 		if err == nil {
 			ev.coqOps = []string{fmt.Sprintf("Mint 8%%N %s", bnCoqCoinList(op.Coins)), fmt.Sprintf("Send 8%%N %d%%N %s", op.W, bnCoqCoinList(op.Coins))}
+			seqVec("EvMint %s", dSup)
+			switch {
+			case op.W <= slNotBonded:
+				seqVec("EvMove AOther ASrc %s", dSup)
+			case op.W == slDistr:
+				seqVec("EvMove AOther ADistr %s", dSup)
+			}
+		}
+	default:
+		// delegate / undelegate / redelegate / staking end-block / create validator / gov submit,
+		// deposit, vote: no demand of the property; for the sequence model: the net flow between users
+		// and gov + the staking pools, and what the distribution hooks paid out and booked
+		p := zeroVec()
+		for d := 0; d < bnDen; d++ {
+			p[d] = new(big.Int).Neg(dDistr[d])
+		}
+		r := zeroVec()
+		for d := 0; d < bnDen; d++ {
+			r[d] = sub(new(big.Int).Neg(bnMulE18(p[d])), dOut[d])
+			if dPool[d].Sign() != 0 {
+				ev.writer = true
+			}
+		}
+		seqMoveSrc(dSrc)
+		seqRemainder(p, r)
+		if ev.writer {
+			ev.tags = append(ev.tags, op.Op+":hook-booked-remainder")
 		}
 	}
 	return ev
@@ -641,21 +955,36 @@ func vecStrings(v [bnDen]*big.Int) [][]string {
 	return out
 }
 
+// bnCaseNo: every case of one process runs in its own range of block heights (the inputs only
+// know heights relative to the start of the case), so that nothing an implementation might
+// remember per height in memory can leak from one case into the next; a replay of a single
+// case is case 0 and runs at the heights of the plain application.
+var bnCaseNo int64
+
 func burnsRunCase(id string, in burnInput) Case {
 	be := &bnEnv{Env: forkEnv()}
-	be.Ctx = be.Ctx.WithGasMeter(sdk.NewInfiniteGasMeter())
+	h0 := be.Ctx.BlockHeight() + bnCaseNo*1_000_000
+	bnCaseNo++
+	be.Ctx = be.Ctx.WithGasMeter(sdk.NewInfiniteGasMeter()).WithBlockHeight(h0)
 	events := []string{}
+	var seqs [bnDen][]string
+	var seqReal [bnDen]int
 	obsAll := []bnStepObs{}
 	oracleMsg := ""
 	tags := map[string]bool{}
 	nRedir, nOrd := 0, 0
-	pre := be.snapshot()
+	first := be.snapshot()
+	pre := first
+	// what happened so far at the current height: 0 nothing, 1 a redirected burn, 2 then a pool writer
+	blockState, blockRedir := 0, 0
 	for i, op := range in.Ops {
 		var govPre map[uint64]govv1.ProposalStatus
 		if op.Op == "govend" {
 			govPre = be.propStatus()
 		}
+		hPre := be.Ctx.BlockHeight()
 		err := be.apply(op)
+		hPost := be.Ctx.BlockHeight()
 		post := be.snapshot()
 		ev := bnJudge(op, err, &pre, &post)
 		if op.Op == "govend" {
@@ -665,30 +994,68 @@ func burnsRunCase(id string, in burnInput) Case {
 				}
 			}
 		}
-		o := bnStepObs{Op: op.Op}
+		// the distribution module-account invariant (x/distribution ModuleAccountInvariant, as an
+		// inequality): the account holds at least the coins of community pool + outstanding rewards
+		if ev.oracle == "" {
+			for d := 0; d < bnDen; d++ {
+				owed := new(big.Int).Add(post.Pool[d], post.Out[d])
+				owed.Quo(owed, e18)
+				if post.Bal[slDistr][d].Cmp(owed) < 0 {
+					ev.oracle = fmt.Sprintf("after the event the distribution module account holds %s %s, less than community pool + outstanding rewards = %s (1e-18 units: pool %s, outstanding %s)",
+						post.Bal[slDistr][d], bnDenoms[d], owed, post.Pool[d], post.Out[d])
+					break
+				}
+			}
+		}
+		o := bnStepObs{Op: op.Op, H: hPost - h0}
 		if err != nil {
 			o.Err = err.Error()
 			if len(o.Err) > 140 {
 				o.Err = o.Err[:140]
 			}
 		}
-		dSup, dPool, dDistr := zeroVec(), zeroVec(), zeroVec()
+		dSup, dPool, dDistr, dOut := zeroVec(), zeroVec(), zeroVec(), zeroVec()
 		for d := 0; d < bnDen; d++ {
 			dSup[d] = sub(post.Supply[d], pre.Supply[d])
 			dPool[d] = sub(post.Pool[d], pre.Pool[d])
 			dDistr[d] = sub(post.Bal[slDistr][d], pre.Bal[slDistr][d])
+			dOut[d] = sub(post.Out[d], pre.Out[d])
 		}
-		o.DSup, o.DPool, o.DDistr = vecStrings(dSup), vecStrings(dPool), vecStrings(dDistr)
+		o.DSup, o.DPool, o.DDistr, o.DOut = vecStrings(dSup), vecStrings(dPool), vecStrings(dDistr), vecStrings(dOut)
+		if hPost != hPre {
+			blockState, blockRedir = 0, 0
+		}
 		if ev.redirX.Sign() > 0 {
 			o.Burned = [][]string{{op.Op, ev.redirX.String()}}
 			nRedir++
+			blockRedir++
+			if blockRedir == 2 {
+				tags["block:two-redirected-burn-events-at-one-height"] = true
+			}
+			if blockState == 2 {
+				tags["block:redirect, pool-writer, redirect at one height"] = true
+			}
+			blockState = 1
+		}
+		if ev.writer && blockState >= 1 && !(ev.redirX.Sign() > 0) {
+			blockState = 2
 		}
 		if ev.ordX.Sign() > 0 {
 			nOrd++
+			if blockRedir > 0 {
+				tags["block:ordinary burn after a redirected one at one height"] = true
+			}
 		}
 		obsAll = append(obsAll, o)
 		if ev.hasProp || len(ev.coqOps) > 0 {
 			events = append(events, fmt.Sprintf("(%s, %s, %d%%N, %s)", pre.coq(), coqList(ev.coqOps), ev.res, post.coq()))
+		}
+		for d := 0; d < bnDen; d++ {
+			for h := hPre; h < hPost; h++ {
+				seqs[d] = append(seqs[d], "EvNextBlock")
+			}
+			seqs[d] = append(seqs[d], ev.seq[d]...)
+			seqReal[d] += len(ev.seq[d])
 		}
 		for _, t := range ev.tags {
 			tags[t] = true
@@ -699,12 +1066,26 @@ func burnsRunCase(id string, in burnInput) Case {
 			tags[op.Op+":ok"] = true
 		}
 		if oracleMsg == "" && ev.oracle != "" {
-			oracleMsg = fmt.Sprintf("step %d (%s): %s", i, op.Op, ev.oracle)
+			oracleMsg = fmt.Sprintf("step %d (%s, height +%d): %s", i, op.Op, hPost-h0, ev.oracle)
 		}
 		pre = post
-		if op.Op != "downtime" {
+		if !op.Hold {
 			be.tick(5)
+			blockState, blockRedir = 0, 0
+			for d := 0; d < bnDen; d++ {
+				seqs[d] = append(seqs[d], "EvNextBlock")
+			}
+		} else {
+			tags["hold"] = true
 		}
+	}
+	// the whole history as one sequence per denomination that moved
+	seqCases := []string{}
+	for d := 0; d < bnDen; d++ {
+		if seqReal[d] == 0 && first.cst(d) == pre.cst(d) {
+			continue
+		}
+		seqCases = append(seqCases, fmt.Sprintf("(%s, %s, %s)", first.cst(d), coqList(seqs[d]), pre.cst(d)))
 	}
 	tl := []string{}
 	for t := range tags {
@@ -714,7 +1095,7 @@ func burnsRunCase(id string, in burnInput) Case {
 	kb, _ := json.Marshal(in)
 	return Case{
 		ID: id, Kind: "history", Input: in, Obs: obsAll,
-		Coq: "[" + strings.Join(events, ";\n   ") + "]", CoqList: "cases",
+		Coq: "([" + strings.Join(events, ";\n   ") + "],\n   [" + strings.Join(seqCases, ";\n   ") + "])", CoqList: "cases",
 		OracleOK: oracleMsg == "", OracleMsg: oracleMsg,
 		Nontrivial: nRedir >= 1, Key: string(kb), Tags: tl,
 	}
@@ -811,19 +1192,152 @@ func bnGen(r *Rng) burnInput {
 	}
 	active := []int{} // proposals believed to be in the voting period
 	nprops := 0
+	// how often the next op stays at the same height: a fifth of the histories has one op per
+	// block, the others blocks of 2-5 ops
+	holdP := []int{0, 45, 60, 75, 85}[r.Intn(5)]
+	allVotes := (1 << nv) - 1
+	fees := func() []daoCoin {
+		cs := []daoCoin{{0, bnStake(r, 1, 2000)}}
+		cs[0].V.Add(cs[0].V, r.Big(40)) // odd amounts: fractional rewards
+		if r.Chance(30) {
+			cs = append(cs, daoCoin{4, big.NewInt(int64(1 + r.Intn(99999)))})
+		}
+		return cs
+	}
+	votes := func() int {
+		if r.Chance(70) {
+			return allVotes
+		}
+		return r.Intn(allVotes + 1)
+	}
+	smallCoins := func() []daoCoin {
+		cs := []daoCoin{{0, r.Big(62)}}
+		cs[0].V.Add(cs[0].V, big.NewInt(1))
+		if r.Chance(25) {
+			cs = append(cs, daoCoin{3 + r.Intn(2), big.NewInt(int64(1 + r.Intn(4000)))})
+		}
+		return cs
+	}
+	// the delegations carry pending rewards from the start
+	add(burnOp{Op: "allocate", Flags: allVotes, Coins: fees()})
+	// one writer of the community pool other than a redirected burn
+	writer := func() burnOp {
+		pk := pairs[r.Intn(len(pairs))]
+		switch r.Intn(8) {
+		case 0, 1:
+			return burnOp{Op: "fundpool", A: r.Intn(bnUsers), Coins: smallCoins()}
+		case 2:
+			return burnOp{Op: "spend", A: r.Intn(bnUsers), Coins: smallCoins()}
+		case 3, 4:
+			return burnOp{Op: "withdraw", A: pk.a, V: pk.v}
+		case 5:
+			return burnOp{Op: "allocate", Flags: votes(), Coins: fees()}
+		case 6:
+			amt := bnStake(r, 1, 50)
+			addDeleg(pk.a, pk.v, amt)
+			return burnOp{Op: "delegate", A: pk.a, V: pk.v, Amt: amt.String()}
+		}
+		amt := part(pk)
+		if amt.Cmp(deleg[pk]) <= 0 {
+			deleg[pk].Sub(deleg[pk], amt)
+		}
+		return burnOp{Op: "undelegate", A: pk.a, V: pk.v, Amt: amt.String()}
+	}
+	// one event that (normally) redirects a burn
+	redirect := func() burnOp {
+		v := r.Intn(nv)
+		switch r.Intn(6) {
+		case 0, 1:
+			return burnOp{Op: "slash", V: v, Frac: bnFrac(r)} // infraction at the current height (downtime)
+		case 2:
+			return burnOp{Op: "slash", V: v, Frac: bnFrac(r), H: []int{2, 3, 6, 12, 40}[r.Intn(5)]}
+		case 3:
+			return burnOp{Op: "doublesign", V: v, H: []int{1, 2, 3, 6, 12}[r.Intn(5)]}
+		case 4:
+			return burnOp{Op: "downtime", V: v}
+		}
+		return burnOp{Op: "govend", DT: []int{250, 400, 1000}[r.Intn(3)]}
+	}
+	underfunded := func() {
+		cs := []daoCoin{}
+		for _, m := range minDep {
+			if v := r.Below(m.V); v.Sign() > 0 {
+				cs = append(cs, daoCoin{m.D, v})
+			}
+		}
+		if r.Chance(40) {
+			cs = bnAddExtra(r, cs)
+		}
+		if len(cs) > 0 {
+			add(burnOp{Op: "submit", A: 8 + r.Intn(4), Coins: cs})
+			nprops++
+		}
+	}
 	n := 16 + r.Intn(18)
 	for k := 0; k < n; k++ {
 		v, w := r.Intn(nv), r.Intn(nv)
 		if r.Chance(5) {
 			v = r.Intn(bnVals)
 		}
+		first := len(in.Ops)
 		x := r.Intn(100)
+		if r.Chance(16) {
+			x = 100 + r.Intn(2)
+		}
 		switch {
+		case x == 100:
+			// one block: redirected burn, 1-3 other writers of the pool (or an ordinary burn), redirected burn
+			if r.Chance(50) {
+				underfunded()
+				first = len(in.Ops)
+			}
+			add(redirect())
+			for q := 1 + r.Intn(3); q > 0; q-- {
+				if r.Chance(12) {
+					m := []int{4, 5, 6, 7}[r.Intn(4)]
+					cs := []daoCoin{{0, big.NewInt(int64(1 + r.Intn(100000)))}}
+					add(burnOp{Op: "fundmod", W: m, Coins: cs})
+					add(burnOp{Op: "bankburn", W: m, Coins: cs})
+				} else {
+					add(writer())
+				}
+			}
+			add(redirect())
+			for q := first; q < len(in.Ops)-1; q++ {
+				in.Ops[q].Hold = true
+			}
+			if r.Chance(60) {
+				continue
+			}
+		case x == 101:
+			// a double-sign slash that meets an unbonding delegation and a redelegation whose
+			// destination delegation has pending rewards: the hooks of distribution fire between
+			// the burns of ONE slash
+			pk := pairs[r.Intn(len(pairs))]
+			if w == pk.v {
+				w = (pk.v + 1) % nv
+			}
+			a1, a2 := part(pk), part(pk)
+			add(burnOp{Op: "redelegate", A: pk.a, V: pk.v, W: w, Amt: a1.String()})
+			if a1.Cmp(deleg[pk]) <= 0 {
+				deleg[pk].Sub(deleg[pk], a1)
+				addDeleg(pk.a, w, a1)
+			}
+			add(burnOp{Op: "undelegate", A: pk.a, V: pk.v, Amt: a2.String()})
+			if a2.Cmp(deleg[pk]) <= 0 {
+				deleg[pk].Sub(deleg[pk], a2)
+			}
+			add(burnOp{Op: "allocate", Flags: allVotes, Coins: fees()})
+			if r.Chance(50) {
+				add(burnOp{Op: "slash", V: pk.v, Frac: bnFrac(r), H: []int{4, 6, 12}[r.Intn(3)]})
+			} else {
+				add(burnOp{Op: "doublesign", V: pk.v, H: []int{4, 6, 12}[r.Intn(3)]})
+			}
 		case x < 6:
 			a, amt := 4+r.Intn(4), bnStake(r, 1, 300)
 			add(burnOp{Op: "delegate", A: a, V: v, Amt: amt.String()})
 			addDeleg(a, v, amt)
-		case x < 19:
+		case x < 16:
 			pk := pairs[r.Intn(len(pairs))]
 			if r.Chance(8) {
 				pk = pair{4 + r.Intn(4), v}
@@ -834,7 +1348,7 @@ func bnGen(r *Rng) burnInput {
 			if amt.Cmp(deleg[pk]) <= 0 {
 				deleg[pk].Sub(deleg[pk], amt)
 			}
-		case x < 31:
+		case x < 26:
 			pk := pairs[r.Intn(len(pairs))]
 			if w == pk.v && r.Chance(90) {
 				w = (pk.v + 1) % nv
@@ -845,19 +1359,19 @@ func bnGen(r *Rng) burnInput {
 				deleg[pk].Sub(deleg[pk], amt)
 				addDeleg(pk.a, w, amt)
 			}
-		case x < 38:
+		case x < 31:
 			add(burnOp{Op: "endblock", DT: []int{5, 70, 700}[r.Intn(3)]})
-		case x < 55:
+		case x < 45:
 			op := burnOp{Op: "slash", V: v, Frac: bnFrac(r), H: []int{0, 1, 2, 3, 6, 12, 40}[r.Intn(7)]}
 			if r.Chance(25) {
 				op.Pow = fmt.Sprint(r.Intn(3000))
 			}
 			add(op)
-		case x < 61:
+		case x < 51:
 			add(burnOp{Op: "doublesign", V: v, H: []int{1, 2, 3, 6, 12}[r.Intn(5)]})
-		case x < 65:
+		case x < 55:
 			add(burnOp{Op: "downtime", V: v})
-		case x < 72:
+		case x < 61:
 			cs := []daoCoin{}
 			full := r.Chance(65)
 			for _, m := range minDep {
@@ -882,7 +1396,7 @@ func bnGen(r *Rng) burnInput {
 				active = append(active, nprops)
 			}
 			nprops++
-		case x < 78:
+		case x < 66:
 			if nprops == 0 {
 				continue
 			}
@@ -903,26 +1417,26 @@ func bnGen(r *Rng) burnInput {
 			if len(cs) >= len(minDep) {
 				active = append(active, w)
 			}
-		case x < 87:
+		case x < 73:
 			if len(active) == 0 {
 				continue
 			}
 			// validators' operators carry the voting power; option 4 = NoWithVeto
 			add(burnOp{Op: "vote", A: r.Intn(nv), W: active[r.Intn(len(active))], Opt: []int{1, 2, 3, 4, 4, 4}[r.Intn(6)]})
-		case x < 92:
+		case x < 78:
 			add(burnOp{Op: "govend", DT: []int{100, 250, 400, 1000}[r.Intn(4)]})
 			if r.Chance(70) {
 				active = active[:0]
 			}
-		case x < 95:
+		case x < 80:
 			amt := bnStake(r, 0, 50)
 			if r.Chance(15) {
 				amt = bnStake(r, 20000, 30000) // more than the balance
 			}
 			add(burnOp{Op: "evmburn", A: r.Intn(bnUsers), Amt: amt.String()})
-		case x < 96:
+		case x < 81:
 			add(burnOp{Op: "evmmint", A: r.Intn(bnUsers), Amt: bnStake(r, 0, 50).String()})
-		default:
+		case x < 85:
 			m := []int{4, 5, 6, 7, 4, 5, 6, 7, 8, 3, 9}[r.Intn(11)] // evm erc20 liquidvesting transfer | coinomics distribution fee_collector: no Burner permission
 			cs := []daoCoin{{0, r.Big(70)}}
 			cs[0].V.Add(cs[0].V, big.NewInt(1))
@@ -941,6 +1455,26 @@ func bnGen(r *Rng) burnInput {
 				bs[0].V = big.NewInt(1)
 			}
 			add(burnOp{Op: "bankburn", W: m, Coins: bs})
+		case x < 90:
+			cs := smallCoins()
+			if r.Chance(10) {
+				cs[0].V = bnStake(r, 20000, 30000) // more than the balance
+			}
+			add(burnOp{Op: "fundpool", A: r.Intn(bnUsers), Coins: cs})
+		case x < 93:
+			add(burnOp{Op: "spend", A: r.Intn(bnUsers), Coins: smallCoins()})
+		case x < 96:
+			pk := pairs[r.Intn(len(pairs))]
+			add(burnOp{Op: "withdraw", A: pk.a, V: pk.v})
+		case x < 97:
+			add(burnOp{Op: "commission", V: v})
+		default:
+			add(burnOp{Op: "allocate", Flags: votes(), Coins: fees()})
+		}
+		for q := first; q < len(in.Ops); q++ {
+			if r.Chance(holdP) {
+				in.Ops[q].Hold = true
+			}
 		}
 	}
 	// make sure pending proposals and unbondings resolve
